@@ -21,14 +21,15 @@ import (
 // EventLog is the single, mutex-ordered record of everything the harness observed. Writers log
 // *before* they write to a socket and *after* they read from one, so the order respects causality.
 type EventLog struct {
-	mu   sync.Mutex
-	w    *bufio.Writer
-	f    *os.File
-	Tid  int
-	N    int
-	Mem  []Event // kept in memory when Keep is set
-	Keep bool
-	Sync bool // flush after every event (a proxy panic must not lose the lines before it)
+	mu    sync.Mutex
+	w     *bufio.Writer
+	f     *os.File
+	Tid   int
+	N     int
+	Recvs int     // "recv" events so far
+	Mem   []Event // kept in memory when Keep is set
+	Keep  bool
+	Sync  bool // flush after every event (a proxy panic must not lose the lines before it)
 }
 
 func NewEventLog(path string) (*EventLog, error) {
@@ -51,6 +52,9 @@ func (l *EventLog) Add(e Event) {
 	l.w.Write(b)
 	l.w.WriteByte('\n')
 	l.N++
+	if e.Ev == "recv" {
+		l.Recvs++
+	}
 	if l.Sync {
 		l.w.Flush()
 	}
